@@ -690,7 +690,7 @@ class StmtMixin:
         """(length term, element function) of a symbolic iterable."""
         if isinstance(it, Obj) and it.kind in ('seq', 'arr') and it.ndim == 1:
             n = self.arr_len(st, it)
-            self.add_fact(('len>=0', str(n)), n >= 0)
+            self.add_fact(('len>=0', n.get_id()), n >= 0)
             return n, (lambda s, k: self.arr_read(s, it, [k]))
         if isinstance(it, ZipVal):
             doms = [self.iter_domain(x, st, fr) if not isinstance(x, (tuple, list)) else
